@@ -566,6 +566,26 @@ PROPS["C11"].update(disabled=False, theorems=["Refmt.C11.clone_equal_plain", "Re
               "compared with the model (marshalV then unmV) and with normV; oracle: source unchanged after the call; mutation probing of "
               "every reachable location of copy and source for aliasing; non-trivial = successful clone of a value with more than 2 tokens")
 PROPS["C11"].pop("na_reason", None)
+PROPS["C12"].update(disabled=False, extra_modules=["RefmtProofs.Props.C01"],
+    theorems=["Refmt.C12.unm_yields_untyped", "Refmt.C12.untyped_roundtrip", "Refmt.C12.marshal_sortU", "Refmt.C12.fixpoint_tokens",
+              "Refmt.C12.unm_canon_untyped", "Refmt.C12.fixpoint_cbor", "Refmt.C12.native_first_pass_cbor", "Refmt.C12.fixpoint_json",
+              "Refmt.C01.cbor_eq_tokens"],
+    claim="Theorems (every token list / every native untyped value, unbounded nesting): whatever the untyped unmarshaller accepts, it "
+          "builds a native untyped value (nil, bool, int, uint64 only above MaxInt64, float64, string, byte string, []interface{}, "
+          "map[string]interface{} with distinct keys); marshalling such a value and unmarshalling the tokens into an untyped slot gives "
+          "the value back with every map in the marshaller's key order, and sorting does not change what is marshalled: M(U(M u)) = M u on "
+          "tokens; the untyped unmarshaller cannot tell a token list from what the CBOR codec returns for it; hence for CBOR, byte level: "
+          "b2 = Marshal(u1) decodes into an untyped u2 with Marshal(u2) = b2 (fixpoint), and for native untyped values already the first "
+          "re-marshal is byte-identical; the same for JSON on what JSON carries (no byte strings, valid UTF-8, finite floats other than -0 "
+          "whose text re-reads to a token that prints as the same text - a decidable per-float condition on the trusted float-text "
+          "routines). The statements with the originally written fuel side condition are kept with a kernel-checked counterexample "
+          "(33-fold nesting). That the re-marshalled document still decodes into v's own type to a value equal to v is C01 + the "
+          "remarshal stream.",
+    rule_text="values of the zoo types (as C01, incl. uint64 up to 2^64-1, integral floats, NaN for CBOR, nested empty containers, tagged "
+              "transforms at every depth) x atlases x both formats: b1 = Marshal(v), u1 = Unmarshal(b1) into interface{}, b2 = Marshal(u1), "
+              "back = Unmarshal(b2) into v's type, u2, b3; oracle: b3 = b2 byte for byte, back equals the specified value, and b2 = b1 for "
+              "values made only of natively untyped kinds (except JSON -0); everything compared with the model chain")
+PROPS["C12"].pop("na_reason", None)
 
 def rule_autogen(body, I, M):
     i = I.get("I", "")
